@@ -12,6 +12,7 @@ def add(pid, technique, text, note, ref):
     CHECKS[pid] = (technique, text, note, ref)
 
 NOT_APPLICABLE = {}
+LEVELS = {}
 
 exec(open(os.path.join(HERE, "manifest_table.py")).read())
 
@@ -28,7 +29,7 @@ for pid in props:
         "evidence_file": "evidence/%s.json" % pid,
         "replay_cmd_template": "./check --replay {path}",
         "engine": "harness",
-        "level_claimed": {"category": "exploration", "text": text, "design_ref": ref},
+        "level_claimed": {"category": LEVELS.get(pid, "exploration"), "text": text, "design_ref": ref},
         "level_note": note,
         "technique": technique,
     })
